@@ -194,3 +194,9 @@ ben("c01-general-linear-polyval-per-axis", "C01", "stepper/generic/_linear.py", 
 # ------------------------------------------------------------------------------------------ mutation survey round 2b
 mut("c20-general-nonlinear-two-channels", "C20", "stepper/generic/_nonlinear.py", "            dt=dt,\n            num_channels=1,\n            order=order,", "            dt=dt,\n            num_channels=2,\n            order=order,", "a scalar stepper that suddenly expects two channels (survey survivor)", count=1)
 mut("c04-stepper-dx", "C04", "_base_stepper.py", "self.dx = domain_extent / num_points", "self.dx = domain_extent * num_points", "published grid spacing wrong (survey survivor)")
+
+# ------------------------------------------------------------------------------------------ seeded wave 6 lessons
+mut("c14-window-roll-flattened", "C14", "_utils.py", "            lambda leaf: jax.lax.dynamic_slice_in_dim(\n                leaf,\n                start_index=i,\n                slice_size=sub_len,\n                axis=0,\n            ),", "            lambda leaf: jnp.roll(leaf, -i)[:sub_len],", "roll without axis acts on the flattened leaf (seeded S48)")
+ben("c14-window-roll-axis0", "C14", "_utils.py", "            lambda leaf: jax.lax.dynamic_slice_in_dim(\n                leaf,\n                start_index=i,\n                slice_size=sub_len,\n                axis=0,\n            ),", "            lambda leaf: jnp.roll(leaf, -i, axis=0)[:sub_len],", "the same window written with roll along the time axis")
+ben("c14-window-dynamic-slice", "C14", "_utils.py", "            lambda leaf: jax.lax.dynamic_slice_in_dim(\n                leaf,\n                start_index=i,\n                slice_size=sub_len,\n                axis=0,\n            ),", "            lambda leaf: jax.lax.dynamic_slice(leaf, (i,) + (0,) * (leaf.ndim - 1), (sub_len,) + leaf.shape[1:]),", "the same window written with lax.dynamic_slice")
+mut("c15-strided-downsampling", "C15", "_interpolation.py", "    if old_num_points == new_num_points:\n        return state\n", "    if old_num_points == new_num_points:\n        return state\n\n    if old_num_points % new_num_points == 0:\n        stride = old_num_points // new_num_points\n        return state[(slice(None),) + (slice(None, None, stride),) * num_spatial_dims]\n", "integer-ratio downsampling by strided slicing aliases (seeded S45)")
